@@ -109,6 +109,76 @@ theorem C17_group_complete (ms : List Member) (g : List Member) (hg : g ∈ grou
   refine ⟨hc, ?_⟩
   rw [← ha.2, Prod.ext_iff]; exact ⟨hs, hv⟩
 
+theorem dedupKeys_subset (ks : List (Bytes × Bytes)) : ∀ k ∈ dedupKeys ks, k ∈ ks := by
+  induction ks with
+  | nil => intro k h; simp [dedupKeys] at h
+  | cons a r ih =>
+    intro k h
+    simp only [dedupKeys, List.mem_cons, List.mem_filter] at h
+    rcases h with rfl | ⟨h, _⟩
+    · simp
+    · exact List.mem_cons_of_mem _ (ih k h)
+
+theorem dedupKeys_append (a c : List (Bytes × Bytes)) (h : ∀ k ∈ a, k ∉ c) :
+    dedupKeys (a ++ c) = dedupKeys a ++ dedupKeys c := by
+  induction a with
+  | nil => rfl
+  | cons k r ih =>
+    simp only [List.cons_append, dedupKeys]
+    rw [ih (fun x hx => h x (by simp [hx])), List.filter_append]
+    congr 2
+    rw [List.filter_eq_self]
+    intro x hx
+    have hk : k ∉ c := h k (by simp)
+    simp only [bne_iff_ne, ne_eq]
+    intro e; subst e
+    exact hk (dedupKeys_subset c _ hx)
+
+/-- **objects are judged independently**: if no member of one part shares (object, rule text) with a
+member of the other — e.g. the members of two slice elements, of a parent and a nested object, of two
+map entries — the groups of the whole are the groups of the first part followed by the groups of the
+second, each exactly as if the other part did not exist -/
+theorem C17_independent_objects (ms₁ ms₂ : List Member)
+    (h : ∀ a ∈ ms₁, ∀ c ∈ ms₂, a.gkey ≠ c.gkey) :
+    groupMembers (ms₁ ++ ms₂) = groupMembers ms₁ ++ groupMembers ms₂ := by
+  unfold groupMembers
+  have hdis : ∀ k ∈ ms₁.map Member.gkey, k ∉ ms₂.map Member.gkey := by
+    intro k hk hk2
+    simp only [List.mem_map] at hk hk2
+    obtain ⟨a, ha, rfl⟩ := hk
+    obtain ⟨c, hc, hce⟩ := hk2
+    exact h a ha c hc hce.symm
+  rw [List.map_append, dedupKeys_append _ _ hdis, List.map_append]
+  congr 1
+  · apply List.map_congr_left
+    intro k hk
+    have hk1 : k ∈ ms₁.map Member.gkey := dedupKeys_subset _ k hk
+    rw [List.filter_append]
+    have : ms₂.filter (fun m => m.gkey == k) = [] := by
+      rw [List.filter_eq_nil_iff]
+      intro m hm
+      simp only [beq_iff_eq]
+      intro e
+      exact hdis k hk1 (by rw [← e]; exact List.mem_map_of_mem hm)
+    rw [this, List.append_nil]
+  · apply List.map_congr_left
+    intro k hk
+    have hk2 : k ∈ ms₂.map Member.gkey := dedupKeys_subset _ k hk
+    rw [List.filter_append]
+    have : ms₁.filter (fun m => m.gkey == k) = [] := by
+      rw [List.filter_eq_nil_iff]
+      intro m hm
+      simp only [beq_iff_eq]
+      intro e
+      exact hdis k (by rw [← e]; exact List.mem_map_of_mem hm) hk2
+    rw [this, List.nil_append]
+
+/-- … and so are their clauses -/
+theorem C17_independent_clauses (ms₁ ms₂ : List Member) (h : ∀ a ∈ ms₁, ∀ c ∈ ms₂, a.gkey ≠ c.gkey) :
+    groupClauses (ms₁ ++ ms₂) = (do let a ← groupClauses ms₁; let c ← groupClauses ms₂; pure (a ++ c)) := by
+  unfold groupClauses
+  rw [C17_independent_objects ms₁ ms₂ h, List.mapM_append]
+
 /-- the scope under which a struct field registers is the path of the object that holds it -/
 theorem C17_scope_is_object (ext : Ext) (fns : FnTables) (scope sn fname : Bytes) (v : GoVal)
     (descend : Bool → Bool → Bytes → WSt → M WSt) (r : Bytes) (rs : List Bytes) (d : Bool) (st : WSt) (hr : r ≠ [])
